@@ -48,7 +48,14 @@ type Node struct {
 }
 
 func (s *Node) Merge(other *Node) {
-	s.Kinds = s.Kinds.Add(other.Kinds...)
+	for _, otherKind := range other.Kinds {
+		// A kind this node has deleted stays deleted unless the other node explicitly added it
+		if s.DeletedKinds.ContainsOneOf(otherKind) && !other.AddedKinds.ContainsOneOf(otherKind) {
+			continue
+		}
+
+		s.Kinds = s.Kinds.Add(otherKind)
+	}
 
 	for _, otherKind := range other.AddedKinds {
 		s.DeletedKinds = s.DeletedKinds.Remove(otherKind)
